@@ -121,6 +121,24 @@ func runC18Core(c *Ctx) {
 	if n < 5 {
 		c.Unresolved("C18.O1", "fewer than 5 sentinel returns found in nextChunk")
 	}
+	// C18.G3: a failed read of the next block is turned into a tolerated-tail sentinel only where
+	// the error was seen to be io.EOF (or the short-read io.ErrUnexpectedEOF); any other I/O error
+	// propagates, so that recovery does not take a transient read fault for the end of the log.
+	{
+		fl3 := NewFlow(c.P).
+			KillEdge("read-error-classified", NotCond(NilErrGuard(CallPred("ReadFull", "io")))).
+			Edge("read-error-classified", ErrorsIsGuard("EOF")).
+			Edge("read-error-classified", ErrorsIsGuard("ErrUnexpectedEOF"))
+		entry := emptyState()
+		entry.add("read-error-classified")
+		res3 := fl3.Analyze(fn, entry)
+		c.noteFlow(fl3)
+		n3 := c.Require("C18.G3", res3, ReturnOf("EOF|ErrInvalidChunk|ErrZeroedChunk|ErrUnexpectedEOF", -1, sentinelPred("EOF", "ErrInvalidChunk", "ErrZeroedChunk", "ErrUnexpectedEOF")),
+			"a tolerated-tail sentinel is not returned for an unclassified read error", []string{"read-error-classified"})
+		if n3 < 5 || CondCount(fn, NilErrGuard(CallPred("ReadFull", "io"))) == 0 {
+			c.Unresolved("C18.G3", "sentinel returns / the nil test of io.ReadFull's error not found in nextChunk")
+		}
+	}
 	// C18.G1: success return only after validation
 	n = c.Require("C18.G1", res, Pred("return nil", func(in ssa.Instruction) bool {
 		ret, ok := in.(*ssa.Return)
